@@ -26,7 +26,7 @@ pub static DEF: CheckDef = CheckDef {
 };
 
 fn families(t: Tier) -> Vec<(&'static str, u64)> {
-    vec![("shapes", t.n(120 + 2_000, 120 + 100_000)), ("macro", 8), ("equality", t.n(3_000, 100_000)), ("refusal", t.n(1_000, 30_000))]
+    vec![("shapes", t.n(120 + 2_000, 120 + 500_000)), ("macro", 8), ("equality", t.n(3_000, 500_000)), ("refusal", t.n(1_000, 150_000))]
 }
 fn floors(_t: Tier) -> Vec<(&'static str, u64)> {
     vec![("evaluations", 5_000), ("indices_checked", 50_000), ("refusals_observed", 1_000), ("equality_cells", 2_000)]
